@@ -3,6 +3,7 @@ import Nstd.Avl.LemmasHeap
 import Nstd.Avl.LemmasHeapClimb
 import Nstd.Avl.LemmasHeapRemove
 import Nstd.Avl.LemmasHeapDescend
+import Nstd.Avl.LemmasHeapThread
 /-
   Property C01 — the tie of the rotation code, by translation instead of by test.
 
@@ -527,6 +528,40 @@ theorem land_ctx (h : Heap) (k : Int) : ∀ (t : Tree) (ctx0 : Ctx) (mc' : Optio
         exact ⟨ctx, a1, a2, a3, a4, a5⟩
       · simp only [h2, if_false] at hl; cases hl
 
+/-! ### the prev/next threading of the private insert -/
+
+/-- **The threading of the new item into the prev/next list** (`Item* insertPos = cell == &parent->right ? parent->next :
+    parent; if((item->prev = insertPos->prev)) insertPos->prev->next = item; else _begin.item = item; item->next =
+    insertPos; insertPos->prev = item;`) of the current headers is the model's `threadIn`: a heap that threads `order`
+    from `_begin.item` to the sentinel (all `next` and `prev` links, `DList`) threads
+    `threadIn order x (some (pid, right))` afterwards — the new item directly behind its parent (right cell) or directly
+    in front of it (left cell), `_begin.item` moved when it becomes the first — and no tree field changes. -/
+theorem gen_insert_thread_eq_model (multi : Bool) (h : Heap) (order : List Nat) (pid x : Nat) (right : Bool)
+    (hd : DList h h.beginItem 0 order) (hpid : pid ∈ order) (hnd : order.Nodup) (hx : x ∉ order)
+    (he : ∀ j ∈ order, j + 1 ≠ h.endItem) (hxe : x + 1 ≠ h.endItem) :
+    let h' := (if multi then Multi.insertThread else Map.insertThread) h (cellOf (some (pid, right))) (pid + 1) (x + 1)
+    DList h' h'.beginItem 0 (threadIn order x (some (pid, right))) ∧
+    h'.key = h.key ∧ h'.value = h.value ∧ h'.parent = h.parent ∧ h'.left = h.left ∧ h'.right = h.right ∧
+    h'.height = h.height ∧ h'.slope = h.slope ∧ h'.root = h.root := by
+  have e : (if multi then Multi.insertThread else Map.insertThread) = Map.insertThread := by
+    cases multi
+    · rfl
+    · simp only [if_true, multi_insertThread]
+  rw [e]
+  refine ⟨insertThread_eq h order pid x right hd hpid hnd hx he hxe, ?_⟩
+  have hX : x + 1 ≠ (if cellOf (some (pid, right)) = Cell.right (pid + 1) then h.next (pid + 1) else pid + 1) := by
+    obtain ⟨pre, post, e⟩ := List.append_of_mem hpid
+    subst e
+    obtain ⟨pvp, dp⟩ := dlist_at (pid :: post) pre _ _ hd
+    have hnext : h.next (pid + 1) = headPtr h post := (dlist_head dp.2.2).1
+    cases right
+    · simp only [cellOf]; intro e2; exact hx (by simp at e2; simp; omega)
+    · simp only [cellOf, if_true, hnext]
+      cases post with
+      | nil => exact hxe
+      | cons j js => simp only [headPtr]; intro e2; exact hx (by simp; omega)
+  exact (insertThread_spliced h _ _ _ hX).2.2
+
 /-! ### non-vacuity: a concrete heap -/
 
 /-- items 0,1,2 (pointers 1,2,3) form the left-leaning chain 5 ← 3 ← 1 hanging in `root` -/
@@ -542,6 +577,7 @@ def sampleHeap : Heap where
   next := fun p => if p = 3 then 2 else if p = 2 then 1 else 99
   prev := fun p => if p = 99 then 1 else if p = 1 then 2 else if p = 2 then 3 else 0
   endItem := 99
+  beginItem := 3
 
 def sampleTree : Tree := node 0 5 50 3 2 (node 1 3 30 2 1 (node 2 1 10 1 0 nil nil) nil) nil
 
@@ -566,6 +602,13 @@ example : Repr sampleHeap sampleHeap.root 0 sampleTree ∧ sampleTree.height < 4
 /-- the sample heap threads its three items 1 → 3 → 5 to the sentinel; `count` of the translated MultiMap code -/
 example : NextRepr sampleHeap 3 sampleTree.inorder := by simp [NextRepr, sampleTree, sampleHeap]
 example : Multi.count 5 sampleHeap 0 3 = some (1, 6) := by decide
+/-- the sample heap threads its items 2, 1, 0 (keys 1, 3, 5) in both directions; threading a new item 7 into the right
+    cell of item 1 puts it between items 1 and 0 -/
+example : DList sampleHeap sampleHeap.beginItem 0 [2, 1, 0] := by simp [DList, sampleHeap]
+example : threadIn [2, 1, 0] 7 (some (1, true)) = [2, 1, 7, 0] := by decide
+example : (Map.insertThread sampleHeap (Cell.right 2) 2 8).next 2 = 8 ∧ (Map.insertThread sampleHeap (Cell.right 2) 2 8).next 8 = 1 ∧
+    (Map.insertThread sampleHeap (Cell.right 2) 2 8).prev 1 = 8 ∧ (Map.insertThread sampleHeap (Cell.right 2) 2 8).prev 8 = 2 := by
+  decide
 example : Tree.rebal sampleTree = node 1 3 30 2 0 (node 2 1 10 1 0 nil nil) (node 0 5 50 1 0 nil nil) := by decide
 
 end Nstd.Avl
